@@ -974,3 +974,25 @@ def stopping_tree(rng):
     fb = lead + lib_body + lib_tail
     nl = lambda L: "\n".join(L) + ("\n" if rng.random() < 0.8 else "")
     return [("a.s", nl(fa)), ("lib.s", nl(fb))], names, kind, where
+
+
+def noreturn_prog(rng):
+    """a helper that is CALLED but never returns (it ends the program, or spins): with and without registers that are live
+    across the call"""
+    live = rng.choice(["s0", "s3", "t2", "a3", None])
+    L = ["main:"]
+    if live:
+        L.append("li %s, %d" % (live, rng.randrange(1, 9)))
+    L.append("li a0, %d" % rng.randrange(0, 4))
+    guard = rng.random() < 0.6
+    if guard:
+        L.append("%s a0, go_on" % rng.choice(["beqz", "bnez", "bgez"]))
+    L.append(rng.choice(["jal fail", "call fail", "jal ra, fail"]))
+    if guard:
+        L.append("go_on:")
+    if live:
+        L.append("add a0, a0, %s" % live)
+    L += ["li a7, 1", "ecall", "li a7, 10", "ecall", "fail:"]
+    L += rng.choice([["li a0, 1", "li a7, 93", "ecall"], ["li a7, 10", "ecall"], ["spin:", "j spin"], ["li a0, 2", "li a7, 93", "ecall", "j fail"],
+                     ["addi sp, sp, -16", "sw ra, 12(sp)", "li a7, 10", "ecall"]])
+    return "\n".join(L) + "\n"
